@@ -22,7 +22,7 @@ func (a strAddr) Network() string { return "tcp" }
 func (a strAddr) String() string  { return string(a) }
 
 type recDB struct {
-	mode  int // 1 hit, 2 miss, 3 error
+	mode  int // 1 hit, 2 miss, 3 error, 4 error together with a partially filled answer
 	calls int
 }
 
@@ -33,6 +33,8 @@ func (d *recDB) GetIPInfo(ip net.IP) (ipinfo.IPInfo, error) {
 		return ipinfo.IPInfo{CountryCode: "US", ASN: ipinfo.ASN{Number: 64500, Organization: "ExampleNet"}}, nil
 	case 2:
 		return ipinfo.IPInfo{}, nil
+	case 4: // the country database answered, the ASN database failed (errors.Join of the two)
+		return ipinfo.IPInfo{CountryCode: "CN"}, errors.New("asn db failure")
 	default:
 		return ipinfo.IPInfo{}, errors.New("db failure")
 	}
@@ -84,7 +86,7 @@ func c20(ctx *Ctx) {
 	shard := 0
 	labels := map[string]int{}
 	for i, ad := range addrs {
-		for mode := 0; mode < 4; mode++ {
+		for mode := 0; mode < 5; mode++ {
 			var db *recDB
 			var m ipinfo.IPInfoMap
 			if mode != 0 {
@@ -122,7 +124,7 @@ func c20(ctx *Ctx) {
 				exp = ""
 			case ip.IsUnspecified() || ip.IsLoopback() || ip.IsMulticast() || ip.IsLinkLocalUnicast() || ip.Equal(net.IPv4bcast):
 				exp = "XL"
-			case mode == 3:
+			case mode == 3 || mode == 4:
 				exp, expConsult = "XD", true
 			case mode == 2:
 				exp, expConsult = "ZZ", true
